@@ -1154,12 +1154,29 @@ type Env = Vec<(HK, usize)>;
 /// above everything the effect reads with tracking, and may read only below everything it writes:
 /// every cascade of effect writes then climbs strictly in level, so it terminates.
 struct RW {
-    max_read: usize,
-    min_write: usize,
+    /// one frame per nested computation (innermost last): (highest level read with tracking, lowest level written)
+    frames: Vec<(usize, usize)>,
 }
 impl RW {
     fn new() -> RW {
-        RW { max_read: 0, min_write: usize::MAX }
+        RW { frames: vec![(0, usize::MAX)] }
+    }
+    /// a computation created inside the current one: its READS are its own (they re-run only itself), its
+    /// WRITES happen during the runs of all enclosing computations too
+    fn push(&mut self) {
+        self.frames.push((0, usize::MAX));
+    }
+    fn pop(&mut self) {
+        self.frames.pop();
+    }
+    fn cur_max_read(&self) -> usize {
+        self.frames.last().unwrap().0
+    }
+    fn cur_min_write(&self) -> usize {
+        self.frames.last().unwrap().1
+    }
+    fn all_max_read(&self) -> usize {
+        self.frames.iter().map(|f| f.0).max().unwrap_or(0)
     }
 }
 
@@ -1188,22 +1205,23 @@ impl<'a> Gen<'a> {
     }
     /// a signal or memo this computation may read with tracking
     fn pick_read(&mut self, env: &[(HK, usize)], rw: &mut RW) -> Option<usize> {
-        let c: Vec<usize> = (0..env.len()).filter(|i| is_val(env[*i].0) && env[*i].1 < rw.min_write).collect();
+        let c: Vec<usize> = (0..env.len()).filter(|i| is_val(env[*i].0) && env[*i].1 < rw.cur_min_write()).collect();
         if c.is_empty() {
             return None;
         }
         let h = c[self.rng.below(c.len())];
-        rw.max_read = rw.max_read.max(env[h].1);
+        let f = rw.frames.last_mut().unwrap();
+        f.0 = f.0.max(env[h].1);
         Some(h)
     }
     /// a signal this effect may write
     fn pick_write(&mut self, env: &[(HK, usize)], rw: &mut RW) -> Option<usize> {
-        let c: Vec<usize> = (0..env.len()).filter(|i| env[*i].0 == HK::Sig && env[*i].1 > rw.max_read).collect();
+        let c: Vec<usize> = (0..env.len()).filter(|i| env[*i].0 == HK::Sig && env[*i].1 > rw.all_max_read()).collect();
         if c.is_empty() {
             return None;
         }
         let h = c[self.rng.below(c.len())];
-        rw.min_write = rw.min_write.min(env[h].1);
+        for f in rw.frames.iter_mut() { f.1 = f.1.min(env[h].1); }
         Some(h)
     }
     /// pure tracked-only body (reads and conditional reads)
@@ -1282,13 +1300,18 @@ impl<'a> Gen<'a> {
                 // re-created by its re-runs: their reads and writes count for the enclosing computation too
                 9 if depth > 0 => {
                     let mut e1 = env.clone();
+                    rw.push();
                     let inner = self.pure_or_body(&mut e1, depth - 1, rw);
-                    env.push((HK::Memo, rw.max_read));
+                    let lv = rw.cur_max_read();
+                    rw.pop();
+                    env.push((HK::Memo, lv));
                     Some(if self.rng.chance(1, 3) { Stmt::Selector(*self.rng.pick(&[EqK::Same, EqK::Parity]), inner) } else { Stmt::Memo(inner) })
                 }
                 10 if depth > 0 => {
                     let mut e1 = env.clone();
+                    rw.push();
                     let inner = self.body(&mut e1, depth - 1, true, rw, rich);
+                    rw.pop();
                     env.push((HK::Effect, 0));
                     Some(Stmt::Effect(inner))
                 }
@@ -1360,20 +1383,20 @@ impl<'a> Gen<'a> {
             let mut rw = RW::new();
             let s = match (profile, self.rng.below(10)) {
                 // profile 0: pure programs (C01/C02/C03 core): memos, selectors and effects with pure tracked bodies
-                (0, 0..=4) => { let b = self.pure_body(&e1, 2, &mut rw); env.push((HK::Memo, rw.max_read)); Stmt::Memo(b) }
-                (0, 5..=6) => { let b = self.pure_body(&e1, 2, &mut rw); env.push((HK::Memo, rw.max_read)); Stmt::Selector(*self.rng.pick(&[EqK::Same, EqK::Parity]), b) }
+                (0, 0..=4) => { let b = self.pure_body(&e1, 2, &mut rw); env.push((HK::Memo, rw.cur_max_read())); Stmt::Memo(b) }
+                (0, 5..=6) => { let b = self.pure_body(&e1, 2, &mut rw); env.push((HK::Memo, rw.cur_max_read())); Stmt::Selector(*self.rng.pick(&[EqK::Same, EqK::Parity]), b) }
                 (0, _) => { let b = self.pure_body(&e1, 2, &mut rw); env.push((HK::Effect, 0)); Stmt::Effect(b) }
                 // profile 1: read forms (C03)
-                (1, 0..=5) => { let b = self.body(&mut e1, 1, false, &mut rw, false); env.push((HK::Memo, rw.max_read)); Stmt::Memo(b) }
+                (1, 0..=5) => { let b = self.body(&mut e1, 1, false, &mut rw, false); env.push((HK::Memo, rw.cur_max_read())); Stmt::Memo(b) }
                 (1, _) => { let b = self.body(&mut e1, 1, false, &mut rw, false); env.push((HK::Effect, 0)); Stmt::Effect(b) }
                 // profile 3: pure programs whose effects also write signals (propagations started
                 // while another one is running, over shared nodes)
-                (3, 0..=3) => { let b = self.pure_body(&e1, 1, &mut rw); env.push((HK::Memo, rw.max_read)); Stmt::Memo(b) }
-                (3, 4) => { let b = self.pure_body(&e1, 1, &mut rw); env.push((HK::Memo, rw.max_read)); Stmt::Selector(*self.rng.pick(&[EqK::Same, EqK::Parity]), b) }
+                (3, 0..=3) => { let b = self.pure_body(&e1, 1, &mut rw); env.push((HK::Memo, rw.cur_max_read())); Stmt::Memo(b) }
+                (3, 4) => { let b = self.pure_body(&e1, 1, &mut rw); env.push((HK::Memo, rw.cur_max_read())); Stmt::Selector(*self.rng.pick(&[EqK::Same, EqK::Parity]), b) }
                 (3, 5..=8) => { let b = self.pure_body_w(&e1, 1, &mut rw); env.push((HK::Effect, 0)); Stmt::Effect(b) }
                 (3, _) => { self.new_sig(&mut env); Stmt::Signal(self.val()) }
                 // profile 2: everything (ownership, disposal, context, effect writes, batches)
-                (_, 0..=2) => { let b = self.pure_or_body(&mut e1, 2, &mut rw); env.push((HK::Memo, rw.max_read)); Stmt::Memo(b) }
+                (_, 0..=2) => { let b = self.pure_or_body(&mut e1, 2, &mut rw); env.push((HK::Memo, rw.cur_max_read())); Stmt::Memo(b) }
                 (_, 3..=6) => { let b = self.body(&mut e1, 2, true, &mut rw, true); env.push((HK::Effect, 0)); Stmt::Effect(b) }
                 (_, 7) => { let b = self.body(&mut e1, 2, false, &mut rw, true); env.push((HK::Scope, 0)); Stmt::Scope(b) }
                 (_, _) => { self.new_sig(&mut env); Stmt::Signal(self.val()) }
@@ -1585,6 +1608,23 @@ fn templates() -> Vec<Vec<Stmt>> {
             p.push(Effect(if memo { vec![IfPos(1, vec![Read(2)], vec![])] } else { vec![IfPos(1, vec![Track(0)], vec![]), Read(1)] }));
             if extra { p.push(Effect(vec![Read(1), Read(0)])); }
             p.extend([Dispose(2), s_set(1, 0), s_set(0, 5), s_set(1, 0), s_set(1, -1)]);
+            t.push(p);
+        }
+    }
+    // a DESCENDANT's cleanup writes a signal that the (cleanup-less) node being torn down depends on
+    for memo in [false, true] {
+        for deep in [false, true] {
+            let inner = Effect(vec![Cleanup(vec![Set(0, Ex::C(5))])]);
+            let inner = if deep { Scope(vec![Effect(vec![Read(1)]), inner]) } else { inner };
+            let body = vec![Read(0), Signal(1), inner];
+            let mut p = vec![Signal(0), Signal(0), Scope(vec![if memo { Memo(body) } else { Effect(body) }])];
+            p.extend([Dispose(2), s_set(0, 1), s_set(1, 1)]);
+            t.push(p);
+            // the same node disposed directly
+            let inner = Effect(vec![Cleanup(vec![Set(0, Ex::AccPlus(2))])]);
+            let body = vec![Read(0), Signal(1), inner];
+            let mut p = vec![Signal(0), if memo { Memo(body) } else { Effect(body) }];
+            p.extend([s_set(0, 1), Dispose(1), s_set(0, 2)]);
             t.push(p);
         }
     }
